@@ -368,9 +368,10 @@ def ref_logsub(a, b):
         return Ref(UNDEF)
     if b == -mp.inf:
         return Ref(a, lambda: a)
-    e = mp.exp(b - a)
-    v = a + mp.log1p(-e)
-    return Ref(v, lambda: abs(a / (1 - e)) + abs(b * e / (1 - e)))
+    d = b - a
+    em1 = -mp.expm1(d)              # 1 - e^(b-a), exact down to the smallest differences
+    v = a + (mp.log(em1) if d > -1 else mp.log1p(-mp.exp(d)))
+    return Ref(v, lambda: abs(a / em1) + abs(b * (1 - em1) / em1))
 
 
 def ref_gamma(x):
@@ -605,7 +606,7 @@ def region0(fn, ns, xs):
         a, x = xs
         if x == 0:
             return "x=0", ("a<1" if a < 1 else "a=1" if a == 1 else "a>1")
-        xb = "x<=1e-100" if x <= 1e-100 else "x<=1e-10" if x <= 1e-10 else "x>1e-10"
+        xb = "x<=1e-100" if x <= 1e-100 else "x<=1e-9" if x <= 1e-9 else "x>1e-9"
         if a < 10:
             return ("prefix:a<10" + (":x>1e30" if x > 1e30 else "")), a_band(a) + "," + xb
         return "prefix:a>=10", a_band(a) + "," + xb
@@ -646,6 +647,8 @@ def region0(fn, ns, xs):
             br = "nearzero"
         elif x > 6 + 4.0 * n:
             br = "asymptotic"
+            if 1022 < (n + 1) * math.log2(x) < 1076:
+                br = "asymptotic:x^-(n+1)-subnormal"   # the leading power is subnormal but not 0 (0 switches to the log form)
         elif x == 1:
             br = "x=1"
         elif x == 0.5:
@@ -952,8 +955,7 @@ def recurrences(cid, table, acc):
             x = xs[0]
             y = x + 1
             if y - 1 == x and x != 0:
-                k2 = ("Gamma", ns, (float.hex(y) if False else None,))
-                # find by value (hex formatting of Go and Python differ)
+                # find the partner by value (hex formatting of Go and Python differ)
                 for kk, tt in table.items():
                     if kk[0] == "Gamma" and tt["xs"][0] == y and _fin(tt):
                         g0, g1 = mpf(t["got"]), mpf(tt["got"])
@@ -1008,8 +1010,6 @@ def recurrences(cid, table, acc):
                 _rec_check(cid, acc, "Mlgamma=log(Mgamma)", "Mlgamma", [k2, key], table, L - mp.log(G), [L],
                            lambda full: l["ref"].tol(full) + t["ref"].tol(full) / abs(t["ref"].val), k2,
                            lambda: "Mlgamma-log(Mgamma) at x=%r k=%d" % (xs[0], ns[0]))
-        elif fn == "Gamma" and False:
-            pass
     # Lgamma = log(Gamma)
     for key, t in list(table.items()):
         fn, ns, hxs = key
